@@ -451,20 +451,27 @@ func classify(rc ringCase) string {
 func TestC01(t *testing.T) {
 	rep := ev.NewReport("C01", "lookup")
 	u := getUniverse()
-	rep.Bound = fmt.Sprintf("instances 1..%d, tokens/instance 0..%d from %v, zones %q, %d health classes of (ACTIVE at exactly the heartbeat timeout, ACTIVE stale by 1s, LEAVING, PENDING, JOINING, ACTIVE read-only, LEAVING read-only, LEFT), RF %v, zone-awareness on/off, 4 ops, keys t-1,t,t+1 for every token + 0,1,M-1,M, 3 buffer variants", u.maxInst, u.maxTok, u.tokAlpha, u.zones, u.cls, u.rfs)
+	rep.Bound = fmt.Sprintf("instances 1..%d, tokens/instance 0..%d from %v, zones %q, %d health classes of (ACTIVE at exactly the heartbeat timeout, ACTIVE stale by 1s, LEAVING, PENDING, JOINING, ACTIVE read-only, LEAVING read-only, LEFT), RF %v, zone-awareness on/off, 4 ops, keys t-1,t,t+1 for every token + 0,1,M-1,M, 3 buffer variants; with 4 instances the per-instance alphabet is reduced to 4 tokens {0,1,7,M} and the first 5 classes", u.maxInst, u.maxTok, u.tokAlpha, u.zones, u.cls, u.rfs)
 	rep.Rule = "every descriptor of the universe (token→owner assignments × per-instance (zone,class), instances up to permutation) × RF × zone-awareness × op × boundary key × buffer variant, real Ring.Get vs linear-scan specification; distinct_nontrivial = distinct multisets of (class, #tokens, zone) with >=2 instances"
 	rep.Assumptions = []string{"keys matter only through comparison with tokens (one representative per gap and per token)", "instance ids matter only through equality"}
 	deadline := ev.Deadline(10 * time.Minute)
 	enum.Frozen(t, func() {
 		now := time.Now()
 		for n := 1; n <= u.maxInst; n++ {
-			count, at := ringsOfSize(u, n)
+			un := u
+			if n == 4 {
+				// 4 instances (RF 3 + an extension member, more zones than RF): a reduced per-instance alphabet keeps
+				// the thorough tier inside its budget — 4 boundary tokens, 6 classes (read-only only on LEAVING)
+				un.tokAlpha = []uint32{0, 1, 7, M}
+				un.cls = 5
+			}
+			count, at := ringsOfSize(un, n)
 			done := enum.Par(count, deadline, func() bool { return rep.NumViolations() >= 20 }, func(i int) {
 				rc, ok := at(i)
 				if !ok {
 					return
 				}
-				e := checkRing(u, rc, n, i, rep, now)
+				e := checkRing(un, rc, n, i, rep, now)
 				rep.Eval(e)
 				rep.State(1)
 				rep.Trans(e)
